@@ -92,6 +92,19 @@ theorem example_expression_dim :
     t.WF = true ∧ ({ identifier := t.str, post := t.post } : DimExpr).isIdentifier = false ∧
     ({ identifier := t.str, post := t.post } : DimExpr).isLiteral = false := by decide
 
+/-- … and so are a lone name in parentheses (`(a)`: an expression, not an identifier called "(a)") and an expression without any name
+    (`3*2`, `isqrt(16)`: not a literal) — both are compared with their arithmetic value like any other expression -/
+theorem example_group_and_constant_expression_dims :
+    (let t : Tree := .grp (.var ['a'])
+     t.WF = true ∧ ({ identifier := t.str, post := t.post } : DimExpr).isIdentifier = false ∧
+     ({ identifier := t.str, post := t.post } : DimExpr).isLiteral = false) ∧
+    (let t : Tree := .bin .mul (.lit ['3']) (.lit ['2'])
+     t.WF = true ∧ ({ identifier := t.str, post := t.post } : DimExpr).isIdentifier = false ∧
+     ({ identifier := t.str, post := t.post } : DimExpr).isLiteral = false) ∧
+    (let t : Tree := .isqrt (.lit ['1', '6'])
+     t.WF = true ∧ ({ identifier := t.str, post := t.post } : DimExpr).isIdentifier = false ∧
+     ({ identifier := t.str, post := t.post } : DimExpr).isLiteral = false) := by decide
+
 /-- the oracle used by the correspondence runs is sound: a string the independent recursive-descent
     recogniser accepts is the string of the well-formed tree it returns … -/
 theorem recogniser_is_sound (s : List Char) (t : Tree) (h : recogniseExpr s = some t) :
